@@ -288,6 +288,9 @@ def make_items(tier, seed):
     # the textual exporters are cheap to read back: the whole control-flow corpus and a slice of the
     # re-assignment families (scratch qubit naming, recycled ancillas) go through QASM 3
     wide = [p[1] for p in corpus.u_ctl() if corpus.size_ok(p[1], 8, 60)] + [p[1] for p in corpus.u_selfif()[:: (1 if tier == "thorough" else 3)]] + [p[1] for p in corpus.u_stale()[:: (2 if tier == "thorough" else 6)]]
+    from .. import corpus2
+
+    wide += [p[1] for p in corpus2.u_prog2(500) if corpus.size_ok(p[1], 8, 70)][: (200 if tier == "thorough" else 48)]
     wide = [p for p in wide if p not in progs]
     for i in range(0, len(wide), 6):
         items.append({"fw": "qasm3", "mode": "circuit", "progs": wide[i : i + 6], "opt": "fast" if (i // 6) % 2 else "default"})
